@@ -58,3 +58,52 @@ Section QuantProofs.
     - specialize (IH (exact c x :: h)). destruct (enc c (exact c x :: h) xs) as [[qs es] rs]. cbn [length]. lia.
   Qed.
 End QuantProofs.
+
+(* The same two theorems with the obligations *evaluated* instead of assumed: for every input on which
+   the model's own per-element checks pass, the decoder reproduces the encoder's reconstruction and
+   every element is within the bound.  This is what a kernel gets when one of its obligations is not
+   (yet) proved for all inputs: the check is computed on every case of the correspondence run. *)
+Section Checked.
+  Variable V : Type.
+  Variable ctx : Type.
+  Variable pred : ctx -> list V -> V.
+  Variable quant : ctx -> list V -> V -> V -> option (Z * V).
+  Variable dequant : ctx -> V -> Z -> V.
+  Variable exact : ctx -> V -> V.
+  Variable veq : V -> V -> bool.
+  Variable okb : ctx -> V -> V -> bool.
+  Hypothesis veq_eq : forall a b, veq a b = true -> a = b.
+
+  Notation enc := (enc V ctx pred quant exact).
+  Notation dec := (dec V ctx pred dequant).
+  Notation run_checks := (run_checks V ctx pred quant dequant exact veq okb).
+
+  Theorem checked_lockstep c : forall xs h,
+    let '(nz, mir, _, _) := run_checks c h xs in
+    nz = true -> mir = true -> let '(qs, es, rs) := enc c h xs in dec c h qs es = Some rs.
+  Proof.
+    induction xs as [|x xs IH]; intros h; cbn [Quant.run_checks Quant.enc]; [reflexivity|].
+    destruct (quant c h (pred c h) x) as [[q r]|] eqn:Q.
+    - specialize (IH (r :: h)). destruct (run_checks c (r :: h) xs) as [[[a b] o] ex].
+      intros Hnz Hm. apply andb_true_iff in Hnz as [Hq Ha]. apply andb_true_iff in Hm as [He Hb].
+      specialize (IH Ha Hb). destruct (enc c (r :: h) xs) as [[qs es] rs]. cbn [Quant.dec].
+      destruct (q =? 0); [discriminate|]. rewrite (veq_eq _ _ He), IH. reflexivity.
+    - specialize (IH (exact c x :: h)). destruct (run_checks c (exact c x :: h) xs) as [[[a b] o] ex].
+      intros Hnz Hm. specialize (IH Hnz Hm). destruct (enc c (exact c x :: h) xs) as [[qs es] rs].
+      cbn [Quant.dec Z.eqb]. rewrite IH. reflexivity.
+  Qed.
+
+  Theorem checked_bound c : forall xs h,
+    let '(_, _, o, ex) := run_checks c h xs in
+    o = true -> ex = true -> let '(_, _, rs) := enc c h xs in Forall2 (fun x r => okb c x r = true) xs rs.
+  Proof.
+    induction xs as [|x xs IH]; intros h; cbn [Quant.run_checks Quant.enc]; [constructor|].
+    destruct (quant c h (pred c h) x) as [[q r]|] eqn:Q.
+    - specialize (IH (r :: h)). destruct (run_checks c (r :: h) xs) as [[[a b] o] ex].
+      intros Ho Hex. apply andb_true_iff in Ho as [H1 H2]. specialize (IH H2 Hex).
+      destruct (enc c (r :: h) xs) as [[qs es] rs]. constructor; assumption.
+    - specialize (IH (exact c x :: h)). destruct (run_checks c (exact c x :: h) xs) as [[[a b] o] ex].
+      intros Ho Hex. apply andb_true_iff in Hex as [H1 H2]. specialize (IH Ho H2).
+      destruct (enc c (exact c x :: h) xs) as [[qs es] rs]. constructor; assumption.
+  Qed.
+End Checked.
